@@ -3,7 +3,7 @@ use crate::common::*;
 use nalgebra::Vector3;
 use spdcalc::dim::ucum::{K, M, RAD, S};
 use spdcalc::prelude::*;
-use spdcalc::{delta_k, CrystalSetup, PeriodicPoling, Sign, SPDC};
+use spdcalc::{delta_k, AutoCalcParam, CrystalSetup, PeriodicPoling, Sign, SPDC};
 
 pub const C: f64 = 299_792_458.0;
 pub const TAU: f64 = std::f64::consts::TAU;
@@ -347,6 +347,257 @@ fn case(ctx: &mut Ctx, spdc0: &SPDC, cs: &CrystalSetup, lp: f64, ls: f64, ths: f
   }
 }
 
+// =====================================================================================================================
+// SPDC-level routes that derive the idler, each after a history of mutations on ONE SPDC object
+// =====================================================================================================================
+
+/// K line `opt_idler` for an idler derived (by whatever route) from `(signal, pump, cs, pp)`
+fn k_opt_idler(ctx: &mut Ctx, cs: &CrystalSetup, signal: &SignalBeam, pump: &PumpBeam, pp: &PeriodicPoling, out: &str) {
+  let ns = *signal.refractive_index(signal.frequency(), cs);
+  let np = *pump.refractive_index(pump.frequency(), cs);
+  let args = format!(
+    "{} {} {} {} {} {} {} {} {} {} {}",
+    cs.pm_type,
+    cs.counter_propagation as u8,
+    fl(l_of(signal)),
+    fl(l_of(pump)),
+    fl(ns),
+    fl(np),
+    fl(th_of(signal)),
+    fl(ph_of(signal)),
+    pp_wire(pp),
+    fl(*(signal.waist().x / M)),
+    fl(*(signal.waist().y / M)),
+  );
+  ctx.k("opt_idler", &args, out);
+}
+
+fn idler_wire(i: &IdlerBeam) -> String {
+  format!(
+    "OK {} {} {} {} {} {} {} {}",
+    pol_name(i.polarization()),
+    fl(ph_of(i)),
+    fl(th_of(i)),
+    fl(w_of(i)),
+    fl(l_of(i)),
+    v3(&dir_of(i)),
+    fl(*(i.waist().x / M)),
+    fl(*(i.waist().y / M)),
+  )
+}
+
+/// ALL clauses of the statement on the setup held by an SPDC object whose idler was just derived through `route`
+fn check_spdc(ctx: &mut Ctx, spdc: &SPDC, route: &str, hist: &str) {
+  let cs = &spdc.crystal_setup;
+  let (signal, pump, idler, pp) = (&spdc.signal, &spdc.pump, &spdc.idler, &spdc.pp);
+  let pm = cs.pm_type;
+  let what = format!(
+    "route={} history={} {}",
+    route,
+    hist,
+    describe(cs, l_of(pump), l_of(signal), th_of(signal), ph_of(signal), pp)
+  );
+  let sig = |clause: &str| format!("route/{}/{}", route, clause);
+  ctx.count(&format!("route/{}", route));
+  // K: the idler held by the object is the model's optimum idler for the object's signal/pump/crystal/poling
+  k_opt_idler(ctx, cs, signal, pump, pp, &idler_wire(idler));
+
+  let (pol_p, pol_s, pol_i) = pol_of(pm);
+  let (ws, wi, wp) = (w_of(signal), w_of(idler), w_of(pump));
+  let k_lambda = match pp {
+    PeriodicPoling::Off => 0.0,
+    PeriodicPoling::On { period, sign, .. } => TAU / (*(*period / M) * if *sign == Sign::NEGATIVE { -1.0 } else { 1.0 }),
+  };
+  let zhat = Vector3::new(0., 0., 1.);
+  let kp = indep_k(cs, 0., 0., pol_p, wp);
+  let ks = indep_k(cs, th_of(signal), ph_of(signal), pol_s, ws);
+  let ki = indep_k(cs, th_of(idler), ph_of(idler), pol_i, wi);
+  let scale = kp.norm();
+  // Δk reported by the object = kp − ks − ki − kΛ ẑ with every k from index_along and the PM table's polarizations
+  let dk = raw_vec(spdc.delta_k(ws * RAD / S, wi * RAD / S));
+  let expect = kp - ks - ki - zhat * k_lambda;
+  ctx.s(
+    "C03.deltak",
+    (dk - expect).amax() <= 1e-9 * scale,
+    &sig("dk-definition"),
+    &format!("{} got=({:e},{:e},{:e}) want=({:e},{:e},{:e})", what, dk.x, dk.y, dk.z, expect.x, expect.y, expect.z),
+  );
+  let (lsr, lpr, li) = (l_of(signal), l_of(pump), l_of(idler));
+  let inv = 1.0 / lpr - 1.0 / lsr;
+  ctx.s("C03.idler", (1.0 / li - inv).abs() <= 1e-9 * inv.abs(), &sig("energy"), &format!("{} li={:e}", what, li));
+  ctx.s(
+    "C03.idler",
+    idler.polarization() == pol_i,
+    &sig("polarization"),
+    &format!("{} idler_pol={} want={}", what, pol_name(idler.polarization()), pol_name(pol_i)),
+  );
+  let dphi = (ph_of(idler) - ph_of(signal) - std::f64::consts::PI).rem_euclid(TAU);
+  let dphi = dphi.min(TAU - dphi);
+  ctx.s("C03.idler", dphi <= 1e-9, &sig("azimuth"), &format!("{} phi_i={:e}", what, ph_of(idler)));
+  ctx.s("C03.idler", idler.waist() == signal.waist(), &sig("waist"), &what);
+  let c = kp - ks - zhat * k_lambda;
+  let di = dir_of(idler);
+  if c.z > 0.0 && th_of(signal).abs() <= 0.3 && !cs.counter_propagation {
+    let cross = di.cross(&c).norm();
+    ctx.s(
+      "C03.idler",
+      cross <= 1e-9 * c.norm() && di.dot(&c) > 0.0,
+      &sig("parallel"),
+      &format!("{} cross_over_norm={:e} theta_i={:e}", what, cross / c.norm(), th_of(idler)),
+    );
+    if th_of(signal) == 0.0 {
+      ctx.s("C03.idler", th_of(idler).sin().abs() <= 1e-9 && th_of(idler).cos() > 0.0, &sig("collinear"), &format!("{} theta_i={:e}", what, th_of(idler)));
+    }
+    let res = dk.cross(&di).norm();
+    ctx.s("C03.idler", res <= 1e-9 * c.norm(), &sig("residual-parallel"), &format!("{} resid_cross={:e} c={:e}", what, res, c.norm()));
+  }
+}
+
+/// one session: build an SPDC object, then repeatedly mutate it and re-derive the idler through one of the routes
+fn route_session(ctx: &mut Ctx, spdc0: &SPDC, cr: &[CrystalType]) {
+  let mut spdc = spdc0.clone();
+  // start from a random in-window setup of a random type, idler derived for it (waists stay equal throughout:
+  // assign/with/try_as_optimum deliberately keep the idler's own waist)
+  let mut crystal = ctx.rng.pick(cr).clone();
+  let (lp0, ls0) = gen_wavelengths(&mut ctx.rng, &crystal);
+  let pm0 = *ctx.rng.pick(&PMS);
+  spdc.crystal_setup = mk_setup(crystal.clone(), pm0, ctx.rng.range(0.0, std::f64::consts::FRAC_PI_2), ctx.rng.range(0.0, TAU), ctx.rng.range(1e-3, 30e-3), ctx.rng.range(0.0, 100.0), false);
+  let (sg, pu) = mk_beams(pm0, lp0, ls0, ctx.rng.range(0.0, 0.3), ctx.rng.range(0.0, TAU), 100e-6);
+  spdc.signal = sg;
+  spdc.pump = pu;
+  spdc.pp = PeriodicPoling::Off;
+  match IdlerBeam::try_new_optimum(&spdc.signal, &spdc.pump, &spdc.crystal_setup, &spdc.pp) {
+    Ok(i) => spdc.idler = i,
+    Err(_) => return,
+  }
+  let mut hist = format!("start:{}:{}", crystal, pm0);
+  let steps = ctx.rng.between(2, 7);
+  for _ in 0..steps {
+    // ---- 1–3 mutations of the object
+    for _ in 0..ctx.rng.between(1, 3) {
+      match ctx.rng.below(7) {
+        0 | 1 => {
+          let pm = *ctx.rng.pick(&PMS);
+          spdc.crystal_setup.pm_type = pm;
+          spdc.signal.set_polarization(pm.signal_polarization());
+          spdc.pump.set_polarization(pm.pump_polarization());
+          hist.push_str(&format!(">pm:{}", pm));
+        }
+        2 => {
+          let (lo, hi) = window(&crystal);
+          let lp = l_of(&spdc.pump);
+          let ls_min = (lp * hi / (hi - lp)).max(lp * 1.0001);
+          if lp > lo && lp < hi / 2.0 && ls_min < hi {
+            let ls = ctx.rng.range(ls_min, hi);
+            spdc.signal.set_vacuum_wavelength(ls * M);
+            hist.push_str(">ls");
+          }
+        }
+        3 => {
+          let th = match ctx.rng.below(4) {
+            0 => 0.0,
+            1 => -ctx.rng.range(0.0, 0.3),
+            _ => ctx.rng.range(0.0, 0.3),
+          };
+          let ph = ctx.rng.range(0.0, TAU);
+          spdc.signal.set_angles(ph * RAD, th * RAD);
+          hist.push_str(">angles");
+        }
+        4 => {
+          spdc.pp = gen_poling(&mut ctx.rng);
+          hist.push_str(match &spdc.pp {
+            PeriodicPoling::Off => ">pp:off",
+            PeriodicPoling::On { sign: Sign::POSITIVE, .. } => ">pp:+",
+            _ => ">pp:-",
+          });
+        }
+        5 => {
+          spdc.crystal_setup.theta = ctx.rng.range(0.0, std::f64::consts::FRAC_PI_2) * RAD;
+          spdc.crystal_setup.phi = ctx.rng.range(0.0, TAU) * RAD;
+          hist.push_str(">corient");
+        }
+        _ => {
+          crystal = ctx.rng.pick(cr).clone();
+          let (lp, ls) = gen_wavelengths(&mut ctx.rng, &crystal);
+          spdc.crystal_setup.crystal = crystal.clone();
+          spdc.pump.set_vacuum_wavelength(lp * M);
+          spdc.signal.set_vacuum_wavelength(ls * M);
+          hist.push_str(&format!(">crystal:{}", crystal));
+        }
+      }
+    }
+    // ---- error clause through the object's own methods: signal not longer than the pump
+    if ctx.rng.below(8) == 0 {
+      let keep = spdc.signal.clone();
+      let lp = l_of(&spdc.pump);
+      spdc.signal.set_vacuum_wavelength((if ctx.rng.coin() { lp } else { lp * 0.8 }) * M);
+      if l_of(&spdc.signal) <= l_of(&spdc.pump) {
+        let what = format!("history={}>ls<=lp {}", hist, describe(&spdc.crystal_setup, lp, l_of(&spdc.signal), th_of(&spdc.signal), ph_of(&spdc.signal), &spdc.pp));
+        let mut a = spdc.clone();
+        ctx.s("C03.idler", matches!(guard(|| a.assign_optimum_idler().map(|_| ())), Some(Err(_))), "route/assign_optimum_idler/error-when-ls-le-lp", &what);
+        let b = spdc.clone();
+        ctx.s("C03.idler", matches!(guard(|| b.with_optimum_idler().map(|_| ())), Some(Err(_))), "route/with_optimum_idler/error-when-ls-le-lp", &what);
+        ctx.s("C03.idler", matches!(guard(|| spdc.optimum_idler().map(|_| ())), Some(Err(_))), "route/optimum_idler/error-when-ls-le-lp", &what);
+        ctx.count("route/error-clause");
+      }
+      spdc.signal = keep;
+    }
+    // ---- re-derive the idler through one route and check every clause on the resulting object
+    match ctx.rng.below(6) {
+      0 | 1 => match guard(|| {
+        let mut s2 = spdc.clone();
+        s2.assign_optimum_idler().map(|_| ()).map(|_| s2)
+      }) {
+        Some(Ok(s2)) => {
+          spdc = s2;
+          hist.push_str(">assign_optimum_idler");
+          check_spdc(ctx, &spdc, "assign_optimum_idler", &hist);
+        }
+        _ => ctx.s("C03.idler", false, "route/assign_optimum_idler/unexpected-error", &hist),
+      },
+      2 => match guard(|| spdc.clone().with_optimum_idler()) {
+        Some(Ok(s2)) => {
+          spdc = s2;
+          hist.push_str(">with_optimum_idler");
+          check_spdc(ctx, &spdc, "with_optimum_idler", &hist);
+        }
+        _ => ctx.s("C03.idler", false, "route/with_optimum_idler/unexpected-error", &hist),
+      },
+      3 => match guard(|| spdc.optimum_idler()) {
+        Some(Ok(i)) => {
+          spdc.idler = i;
+          hist.push_str(">optimum_idler");
+          check_spdc(ctx, &spdc, "optimum_idler", &hist);
+        }
+        _ => ctx.s("C03.idler", false, "route/optimum_idler/unexpected-error", &hist),
+      },
+      4 => {
+        // try_as_optimum may legitimately fail (no poling period ≤ L) or hit C04's findings; only a success is checked
+        if let Some(Ok(s2)) = guard(|| spdc.clone().try_as_optimum()) {
+          spdc = s2;
+          hist.push_str(">try_as_optimum");
+          check_spdc(ctx, &spdc, "try_as_optimum", &hist);
+        } else {
+          ctx.count("route/try_as_optimum/not-ok");
+        }
+      }
+      _ => {
+        // configuration route with `"idler": "auto"` (the config rounds lengths/angles; the clauses are checked on
+        // the object it produces)
+        let mut cfg = spdc.clone().as_config();
+        cfg.idler = AutoCalcParam::Auto("auto".into());
+        if let Some(Ok(s2)) = guard(|| cfg.try_as_spdc()) {
+          spdc = s2;
+          hist.push_str(">config-idler-auto");
+          check_spdc(ctx, &spdc, "config-idler-auto", &hist);
+        } else {
+          ctx.count("route/config-idler-auto/not-ok");
+        }
+      }
+    }
+  }
+}
+
 pub fn run(ctx: &mut Ctx) {
   let cr = crystals();
   let spdc0 = SPDC::default();
@@ -408,6 +659,10 @@ pub fn run(ctx: &mut Ctx) {
       };
       case(ctx, &spdc0, &cs, a, b, ths, phs, &pp, true);
     }
+  }
+  // SPDC-level routes after mutation histories
+  for _ in 0..(ctx.n / 12).max(20) {
+    route_session(ctx, &spdc0, &cr);
   }
   // k_eff, including the assertion on non-positive periods
   for p in [1e-5, 46.5e-6, 0.0, -1e-5, f64::NAN, f64::INFINITY] {
